@@ -113,6 +113,26 @@ def _returns_param0(prog, qual):
     return bool(rets) and all(isinstance(r.value, ast.Name) and r.value.id == p for r in rets)
 
 
+def _root_defs(f, name):
+    """Assignments defining `name`, followed through plain local copies (x = y) and the
+    result/parameter temporaries introduced by helper inlining."""
+    out, seen, work = [], set(), [name]
+    while work:
+        nm = work.pop()
+        if nm in seen:
+            continue
+        seen.add(nm)
+        for d in _defs(f, nm):
+            v = d.value
+            if isinstance(v, ast.Name):
+                work.append(v.id)
+            elif nm.startswith("__ret__") and isinstance(v, ast.Constant) and v.value is None:
+                continue
+            else:
+                out.append(d)
+    return out
+
+
 def rule_P1(ctx):
     res = RuleResult("P1", "every offered task comes from a ready, not completed staged entry; "
                            "what the status machine calls 'work left' is what is offered")
@@ -159,7 +179,7 @@ def rule_P1(ctx):
             problem = "offered value is not a loop-local task built from a staged entry"
         else:
             lv = loop.target.id
-            defs = [d for d in _defs(f, arg.id)]
+            defs = _root_defs(f, arg.id)
             src_ok = False
             for d in defs:
                 v = d.value
@@ -486,6 +506,38 @@ def rule_P3(ctx):
     return res
 
 
+RERUN = "conducting.WorkflowConductor.request_workflow_rerun"
+
+
+def _is_private(qualname):
+    nm = qualname.rsplit(".", 1)[1]
+    return nm.startswith("_") and not nm.startswith("__")
+
+
+def public_entries_reaching(ctx, f):
+    """Public functions from which `f` is reachable along resolved call edges (f itself when
+    it is public)."""
+    cache = ctx.__dict__.setdefault("_pub_reach", {})
+    if "callers" not in cache:
+        callers = {}
+        for (caller, _nid), callees in ctx.absint.call_edges.items():
+            for c in callees:
+                callers.setdefault(c, set()).add(caller)
+        cache["callers"] = callers
+    callers = cache["callers"]
+    out, seen, work = set(), set(), [f.qualname]
+    while work:
+        q = work.pop()
+        if q in seen:
+            continue
+        seen.add(q)
+        if not _is_private(q):
+            out.add(q)
+            continue
+        work.extend(callers.get(q, ()))
+    return out
+
+
 def _staging_justified(ctx, f, fg, node, atoms):
     kw = {k.arg: k.value for k in node.keywords}
     # (i) start tasks
@@ -499,14 +551,12 @@ def _staging_justified(ctx, f, fg, node, atoms):
         if any(a[0] == "==" and a[2] == "retrying" for _, a in atoms):
             return True, "retry re-stage under 'new status == retrying'"
         return False, "re-staged with a retry record outside the 'retrying' branch"
-    # (iii) rerun
-    if f.name == "_request_task_rerun":
-        entries = {en for en, evs in ctx.absint.entry_effects.items()
-                   if not en.rsplit(".", 1)[1].startswith("_")
-                   for ev in evs if any(fr_[0] is f for fr_ in ev.stack)}
-        if entries <= {"conducting.WorkflowConductor.request_workflow_rerun"}:
-            return True, "rerun"
-        return False, "rerun staging reachable from %s" % sorted(entries)
+    # (iii) rerun: the site is reachable from no public entry other than the rerun request
+    entries = public_entries_reaching(ctx, f)
+    if entries == {RERUN}:
+        return True, "rerun (reachable only from request_workflow_rerun)"
+    if not entries and _is_private(f.qualname) and getattr(f.node, "_inlined_somewhere", False):
+        return True, "helper with no remaining caller (inlined at its call sites)"
     # (iv) transition
     return _criteria_guard(ctx, f, fg, node, atoms)
 
@@ -734,10 +784,17 @@ def rule_P5(ctx):
     # unreachable barriers
     g = prog.function("conducting.WorkflowState.get_unreachable_barriers")
     gg = FuncGuards(prog, g)
+    # every way an entry gets into the reported list: append under guards, or the element of
+    # a comprehension under its filters
     apps = [c for c in calls_in(g.node) if callee_name(c) == "append"]
+    apps += [n.elt for n in ast.walk(g.node) if isinstance(n, (ast.ListComp, ast.GeneratorExp))
+             and isinstance(n.elt, ast.Name) and any(
+                 isinstance(gen.iter, ast.Call) and callee_name(gen.iter) == "get_staged_tasks"
+                 for gen in n.generators)]
     for c in apps:
         atoms = gg.atoms(c)
-        inst = ("unreachable", norm_src(c))
+        inst = ("unreachable", norm_src(c) if isinstance(c, ast.Call) else
+                "element of " + norm_src(c._parent))
         barrier = any(a[0] in ("in",) and "barriers" in str(a[2]) for a in atoms)
         notready = any(a[0] == "falsy" and "ready" in a[1] for a in atoms)
         unsat = any(a[0] == "==" and a[2] == "inbound_criteria_not_satisfied" for a in atoms)
@@ -855,6 +912,61 @@ def rule_P6(ctx):
                 res.violated(inst, _f(
                     "P6", g, r, "return True", "a retry is granted without 'tally < count' in "
                     "force (guards: %s): more than count+1 attempts" % fmt_atoms(atoms)))
+            # the policy's own condition decides: a grant either follows a true evaluation of
+            # `when`, or is the default (abended) rule of a policy that has no `when`
+            def _flat(ats):
+                for a_ in ats:
+                    if a_[0] in ("or", "and"):
+                        for alt in a_[1]:
+                            for x_ in _flat(alt):
+                                yield x_
+                    else:
+                        yield a_
+            consulted = any(
+                (a_[0] == "is" and "when" in a_[1] and a_[2] is None)
+                or (a_[0] == "falsy" and "when" in a_[1] and "evaluate" not in a_[1])
+                or (a_[0] == "truthy" and "evaluate" in a_[1] and "when" in a_[1])
+                for a_ in _flat(atoms))
+            inst = ("when", norm_src(r), r.lineno)
+            if consulted:
+                res.holds(inst)
+            else:
+                res.violated(inst, _f(
+                    "P6", g, r, "return True without the retry condition",
+                    "a retry is granted on a path that neither evaluated the policy's `when` to "
+                    "true nor established that the policy has no `when` (guards: %s): a failed "
+                    "attempt is retried although its retry condition is false"
+                    % fmt_atoms(atoms)))
+    # (iv-c) the evaluated delay / count are written back under the key they were read from
+    srt = prog.find_function("conducting.WorkflowConductor.setup_retry_in_task_state")
+    if srt is not None:
+        n_wb = 0
+        for a_ in ast.walk(srt.node):
+            if not (isinstance(a_, ast.Assign) and len(a_.targets) == 1 and isinstance(
+                    a_.targets[0], ast.Subscript) and isinstance(
+                    a_.targets[0].slice, ast.Constant)):
+                continue
+            key = a_.targets[0].slice.value
+            v = a_.value
+            srcs = [v]
+            if isinstance(v, ast.Name):
+                srcs = [d.value for d in _defs(srt, v.id)]
+            for sv in srcs:
+                if isinstance(sv, ast.Call) and callee_name(sv) == "evaluate" and sv.args and \
+                        isinstance(sv.args[0], ast.Subscript) and isinstance(
+                        sv.args[0].slice, ast.Constant):
+                    n_wb += 1
+                    inst = ("write-back", norm_src(a_))
+                    if sv.args[0].slice.value == key:
+                        res.holds(inst)
+                    else:
+                        res.violated(inst, _f(
+                            "P6", srt, a_, "write-back of evaluated retry[%r]" % key,
+                            "the value stored as the retry %s is evaluated from the policy's "
+                            "%r expression" % (key, sv.args[0].slice.value)))
+        if not n_wb:
+            res.note("no in-place evaluation of retry delay/count found in "
+                     "setup_retry_in_task_state")
     # (v) tally and re-stage together
     tallies = [e for e in effects_of(ctx, UTS) if e.func is f and e.path[-1:] == ("tally",)]
     restage = [c for c in calls_in(f.node) if callee_name(c) == "add_staged_task"
@@ -898,6 +1010,28 @@ def rule_P6(ctx):
                 % (unparse(rkw) if rkw is not None else "?")))
         else:
             res.holds(("restage-record",))
+        # the retried attempt is rendered with the context and back-references of the record
+        if helper_restage is None and own:
+            rec = unparse(rkw.value)
+            kws = {k.arg: k.value for k in restage[0].keywords}
+
+            def _strip_copy(v):
+                while isinstance(v, ast.Call) and callee_name(v) in ("deepcopy", "list", "dict",
+                                                                     "copy") and v.args:
+                    v = v.args[0]
+                return unparse(v).replace('"', "'") if v is not None else None
+            want = {"ctxs": "%s['ctxs']['in']" % rec, "prev": "%s['prev']" % rec}
+            for kname, wtxt in sorted(want.items()):
+                inst = ("restage-" + kname,)
+                got = _strip_copy(kws.get(kname))
+                if got == wtxt:
+                    res.holds(inst)
+                else:
+                    res.violated(inst, _f(
+                        "P6", f, restage[0], "%s of the re-stage" % kname,
+                        "the retry re-stage passes %s=%s instead of the execution record's own "
+                        "%s: the retried attempt is rendered with a different input context / "
+                        "predecessor links than the attempt it repeats" % (kname, got, wtxt)))
         if gt == gs and any(a[0] == "==" and a[2] == "retrying" for a in gt):
             res.holds(("tally",))
         else:
@@ -1069,4 +1203,298 @@ def rule_P7(ctx):
             res.violated(("graph", "set_barrier"), _f(
                 "P7", gsb, gsb.node, "set_barrier value",
                 "WorkflowGraph.set_barrier does not store the barrier value it is given unchanged"))
+    return res
+
+
+# ====================================================================== P8
+def _window_sites(prog):
+    """(function, statement, Sub node, result name) for `A = <concurrency> - len(<active>)`."""
+    out = []
+    for f in prog.all_functions():
+        if f.module.short != "conducting":
+            continue
+        for s in ast.walk(f.node):
+            if not (isinstance(s, ast.Assign) and len(s.targets) == 1 and isinstance(
+                    s.targets[0], ast.Name)):
+                continue
+            for v in ast.walk(s.value):
+                if isinstance(v, ast.BinOp) and isinstance(v.op, ast.Sub) and isinstance(
+                        v.right, ast.Call) and callee_name(v.right) == "len" and \
+                        "concurrency" in unparse(v.left):
+                    out.append((f, s, v, s.targets[0].id))
+                    break
+    return out
+
+
+def _int_consts(stmts):
+    out = set()
+    for s in stmts:
+        for n in ast.walk(s):
+            if isinstance(n, ast.Constant) and isinstance(n.value, int) and not isinstance(
+                    n.value, bool):
+                out.add(n.value)
+    return out
+
+
+def rule_P8(ctx):
+    """With-items window: the concurrency used for the window is at least 1 whatever the
+    rendered value (the sign cases are decided exhaustively over the comparison constants of
+    the normalising statements), items are offered only while the window is open
+    (availability > 0) and at most `availability` of the not-yet-run items are taken."""
+    from sa.requests import _Shim
+    from sa.symx import PathEnumerator, Sym
+    res = RuleResult("P8", "with-items window: concurrency <= 0 is normalised to 1 before the "
+                           "window is computed; actions are offered only while availability > 0 "
+                           "and at most availability of the not-run items are taken")
+    prog = ctx.prog
+    sites = _window_sites(prog)
+    if not sites:
+        raise AnalysisError("with-items window computation (concurrency - len(active items)) "
+                            "not found in conducting")
+    for f, stmt, sub, avail in sites:
+        E = sub.left
+        etxt = unparse(E)
+        names = {x.id for x in ast.walk(E) if isinstance(x, ast.Name)}
+        # statements that can change E before the subtraction: in the enclosing blocks'
+        # prefixes (outermost first), those that mention E
+        chain = []
+        node = stmt
+        while node is not None and node is not f.node:
+            parent = getattr(node, "_parent", None)
+            for fld in ("body", "orelse", "finalbody"):
+                lst = getattr(parent, fld, None)
+                if isinstance(lst, list) and node in lst:
+                    chain.insert(0, lst[:lst.index(node)])
+            node = parent
+        prefix = []
+        for lst in chain:
+            for s_ in lst:
+                if any(isinstance(t, (ast.Subscript, ast.Name)) and unparse(t) == etxt
+                       for a_ in ast.walk(s_) if isinstance(a_, (ast.Assign, ast.AugAssign))
+                       for t in (a_.targets if isinstance(a_, ast.Assign) else [a_.target])):
+                    prefix.append(s_)
+        inst = (f.qualname, "normalised " + norm_src(E))
+        consts = _int_consts(prefix) | {0, 1}
+        points = sorted({c + d for c in consts for d in (-1, 0, 1)} |
+                        {min(consts) - 100, max(consts) + 100})
+        bad = None
+        for x in points:
+            def atomizer(a, env):
+                raise AnalysisError("normalisation of %s depends on something else than its "
+                                    "value" % etxt)
+            body = list(prefix) + [ast.Return(value=E)]
+            en = PathEnumerator(prog, _Shim(f, body), {etxt: x}, atomizer)
+            leaves = en.enumerate()
+            val = leaves[0][0] if len(leaves) == 1 else None
+            if isinstance(val, Sym) or not isinstance(val, int):
+                raise AnalysisError("cannot evaluate the normalised concurrency in %s" % f.qualname)
+            if val < 1 or (x >= 1 and val != x):
+                bad = (x, val)
+                break
+        if bad is None:
+            res.holds(inst, "evaluated at %d sign points of the comparison constants" % len(points))
+        else:
+            res.violated(inst, _f(
+                "P8", f, stmt, "normalisation of " + norm_src(E),
+                "a rendered concurrency of %d is used as %d when the window is computed: "
+                "with concurrency <= 0 no item (or a wrong number of items) is ever offered"
+                % bad))
+        # offers only while the window is open, and at most `avail` of them
+        fg = FuncGuards(prog, f)
+        par = getattr(stmt, "_parent", None)
+        later = []
+        for fld in ("body", "orelse", "finalbody"):
+            lst = getattr(par, fld, None)
+            if isinstance(lst, list) and stmt in lst:
+                later = lst[lst.index(stmt) + 1:]
+        blk = ast.Module(body=later, type_ignores=[])
+        offers = []
+        for n in ast.walk(blk):
+            if isinstance(n, ast.Assign) and any(
+                    isinstance(t, ast.Subscript) and isinstance(t.slice, ast.Constant)
+                    and t.slice.value == "actions" for t in n.targets) and textually_before(stmt, n):
+                offers.append(n)
+        avail_disp = avail.split("__")[0]
+        inst2 = (f.qualname, "window " + avail_disp)
+        if not offers:
+            res.violated(inst2, _f("P8", f, stmt, "offer under the window",
+                                   "no assignment of the task's actions follows the window "
+                                   "computation"))
+            continue
+        problems = []
+        for n in offers:
+            v = n.value
+            alts = [(v.body, v.orelse)] if isinstance(v, ast.IfExp) else [(v, None)]
+            for body, other in alts:
+                if isinstance(body, (ast.List, ast.Tuple)) and not body.elts:
+                    continue
+                atoms = fg.atoms(body)
+                clamped = isinstance(stmt.value, ast.Call) and callee_name(stmt.value) == "max" \
+                    and any(isinstance(a_, ast.Constant) and a_.value == 0 for a_ in stmt.value.args)
+                if not clamped and not any((a[0] == ">" and a[1] == avail and a[2] == 0)
+                                           or (a[0] == ">=" and a[1] == avail and a[2] == 1)
+                                           for a in atoms):
+                    problems.append("actions are offered without requiring %s > 0 (%s)" % (
+                        avail_disp, norm_src(n)))
+        # what is offered is selected by the items' own not-run status, not by position
+        unset = prog.fold_name("statuses", "UNSET")
+        for n in offers:
+            closure, work_, seen_ = [], [n.value], set()
+            while work_:
+                e_ = work_.pop()
+                closure.append(e_)
+                for x in ast.walk(e_):
+                    if isinstance(x, ast.Name) and x.id not in seen_:
+                        seen_.add(x.id)
+                        work_.extend(d.value for d in _defs(f, x.id))
+            by_status = False
+            for e_ in closure:
+                for c_ in ast.walk(e_):
+                    if isinstance(c_, ast.Compare) and len(c_.ops) == 1 and isinstance(
+                            c_.ops[0], (ast.Eq, ast.In)):
+                        try:
+                            rv = prog.fold(c_.comparators[0], f.module)
+                        except NotFoldable:
+                            continue
+                        if rv == unset or (isinstance(rv, (list, tuple)) and list(rv) == [unset]):
+                            by_status = True
+            if not by_status and not (isinstance(n.value, (ast.List, ast.Tuple))
+                                      and not n.value.elts):
+                problems.append("the offered actions (%s) are not selected by the not-run "
+                                "(unset) status of their items: an item that already ran can be "
+                                "offered again and a reset one skipped" % norm_src(n))
+        sliced = any(isinstance(n, ast.Subscript) and isinstance(n.slice, ast.Slice)
+                     and n.slice.lower is None and isinstance(n.slice.upper, ast.Name)
+                     and n.slice.upper.id == avail and n.slice.step is None
+                     for n in ast.walk(blk))
+        if not sliced:
+            problems.append("the not-run items are not cut to the first %s" % avail_disp)
+        if problems:
+            res.violated(inst2, _f("P8", f, stmt, "offer under the window " + avail_disp, problems[0]))
+        else:
+            res.holds(inst2)
+    return res
+
+
+# ====================================================================== P9
+def _is_routes(e):
+    return unparse(e).endswith(".routes")
+
+
+def rule_P9(ctx):
+    """Route identity: a route index is either the route the predecessor ran on or the index
+    of the entry just appended to `routes`.  The engine never obtains a route index by looking
+    through the existing entries: two different branches would then share one identity, and
+    the executions of a split task on them could no longer be told apart (one is lost or
+    counted for the other)."""
+    res = RuleResult("P9", "route indices are handed out only by appending: len(routes) - 1 is "
+                           "taken right after the append, and no index is obtained by searching "
+                           "the existing routes")
+    prog = ctx.prog
+    n_alloc = 0
+    for f in prog.all_functions():
+        if f.module.short != "conducting":
+            continue
+        appends = [c for c in calls_in(f.node) if callee_name(c) == "append" and isinstance(
+            c.func, ast.Attribute) and _is_routes(c.func.value)]
+        for n in ast.walk(f.node):
+            # len(routes) - 1
+            if isinstance(n, ast.BinOp) and isinstance(n.op, ast.Sub) and isinstance(
+                    n.left, ast.Call) and callee_name(n.left) == "len" and n.left.args and \
+                    _is_routes(n.left.args[0]):
+                n_alloc += 1
+                stmt = n
+                while not isinstance(stmt, ast.stmt):
+                    stmt = stmt._parent
+                inst = (f.qualname, norm_src(stmt))
+                if isinstance(n.right, ast.Constant) and n.right.value == 1 and any(
+                        _same_block_after(a, stmt) for a in appends):
+                    res.holds(inst)
+                else:
+                    res.violated(inst, _f(
+                        "P9", f, stmt, norm_src(stmt),
+                        "a route index is computed from the length of routes without an append "
+                        "of the new route just before it"))
+            # searching the existing routes for an index
+            searched = None
+            if isinstance(n, ast.Call) and callee_name(n) == "index" and isinstance(
+                    n.func, ast.Attribute) and _is_routes(n.func.value):
+                searched = n
+            elif isinstance(n, ast.Call) and callee_name(n) == "enumerate" and n.args and \
+                    _is_routes(n.args[0]):
+                searched = n
+            if searched is not None:
+                stmt = searched
+                while not isinstance(stmt, ast.stmt):
+                    stmt = stmt._parent
+                res.violated((f.qualname, norm_src(stmt)), _f(
+                    "P9", f, stmt, norm_src(stmt),
+                    "%s obtains a route index by searching the existing routes: an existing "
+                    "route is reused for a different branch, so executions on the two branches "
+                    "share one identity" % f.name))
+    if not n_alloc and not res.findings:
+        raise AnalysisError("route allocation (append to routes, then len(routes) - 1) not found")
+    return res
+
+
+def _same_block_after(app_call, stmt):
+    """The append statement and `stmt` sit in the same statement list, append first."""
+    a = app_call
+    while a is not None and not isinstance(a, ast.stmt):
+        a = getattr(a, "_parent", None)
+    par = getattr(stmt, "_parent", None)
+    for fld in ("body", "orelse", "finalbody"):
+        lst = getattr(par, fld, None)
+        if isinstance(lst, list) and stmt in lst and a in lst:
+            return lst.index(a) < lst.index(stmt)
+    return False
+
+
+# ====================================================================== P10
+def rule_P10(ctx):
+    """Terminal marking: when an event leaves the workflow in a completed status, the record the
+    event was reported for is marked terminal under that condition alone.  The terminal records
+    are what the workflow output is rendered from (and what a default rerun starts from), so an
+    extra condition - e.g. on the task's own status - leaves a canceled or failed workflow
+    with no terminal task and therefore without its output."""
+    res = RuleResult("P10", "the reporting task's record is marked terminal whenever the "
+                            "workflow ends up completed, under no further condition")
+    prog = ctx.prog
+    f = prog.function(UTS)
+    fg = FuncGuards(prog, f)
+    completed = status_set(ctx, "COMPLETED_STATUSES")
+    sites = []
+    for n in ast.walk(f.node):
+        if isinstance(n, ast.Assign) and len(n.targets) == 1 and isinstance(
+                n.targets[0], ast.Subscript) and isinstance(n.targets[0].slice, ast.Constant) \
+                and n.targets[0].slice.value == "term" and isinstance(n.value, ast.Constant) \
+                and n.value.value is True:
+            sites.append(n)
+    final = []
+    for n in sites:
+        atoms = _atoms_wo_validation(fg, n)
+        wf = [a for a in atoms if a[0] == "in" and a[2] == completed
+              and "get_workflow_status" in a[1]]
+        if wf:
+            final.append((n, atoms, wf))
+    if not final:
+        res.violated(("final",), _f(
+            "P10", f, f.node, "terminal mark on workflow completion",
+            "update_task_state no longer marks the reporting task terminal when the workflow "
+            "status is completed"))
+        return res
+    for n, atoms, wf in final:
+        inst = ("final", norm_src(n))
+        extra = [a for a in atoms if a not in wf]
+        # returns that precede it (retry hand-over) are part of the path, not extra conditions
+        extra = [a for a in extra if not (a[0] in ("falsy", "or", "notin") and "retry" in str(a))]
+        if not extra:
+            res.holds(inst)
+        else:
+            res.violated(inst, _f(
+                "P10", f, n, "terminal mark: " + norm_src(n),
+                "the terminal mark carries an extra condition %s besides 'workflow status is "
+                "completed': a workflow that completes (canceled / failed) on an event of a task "
+                "that is itself not completed has no terminal record, and its output is not "
+                "rendered from what was published" % fmt_atoms(extra)))
     return res
